@@ -72,7 +72,9 @@ func selectAncestor(nodeSet NodeSet) Result {
 	result := make([]store.Cursor, 0)
 
 	for _, i := range nodeSet {
-		result = appendAncestors(i.Parent(), result)
+		if i.Pos() != 0 {
+			result = appendAncestors(i.Parent(), result)
+		}
 	}
 
 	return cleanupBackwardAxis(result)
@@ -88,12 +90,15 @@ func selectAncestorOrSelf(nodeSet NodeSet) Result {
 	return cleanupBackwardAxis(result)
 }
 
+// appendAncestors appends cursor and all of its ancestors, up to and
+// including the root node.
 func appendAncestors(cursor store.Cursor, result []store.Cursor) []store.Cursor {
+	result = append(result, cursor)
+
 	if cursor.Pos() == 0 {
 		return result
 	}
 
-	result = append(result, cursor)
 	return appendAncestors(cursor.Parent(), result)
 }
 
@@ -205,7 +210,10 @@ func selectParent(nodeSet NodeSet) Result {
 	result := make([]store.Cursor, 0)
 
 	for _, i := range nodeSet {
-		result = append(result, i.Parent())
+		// The root node has no parent.
+		if i.Pos() != 0 {
+			result = append(result, i.Parent())
+		}
 	}
 
 	return cleanupForwardAxis(result)
